@@ -175,9 +175,14 @@ def run_scenario(spec, ctx, D=None):
         flt = _filter_fn(var, axis, c)
         out.filter = (var, axis, c)
 
+    # a product samples its first factor one point at a time and Boolean results by rejection: the number of
+    # random draws of a terminating call grows with the number of requested rows (400 draws per row cover
+    # nested acceptance rates down to a fraction of a percent); an endless loop exceeds any such budget
+    rows_req = (spec["m"] if d is not None else n) * max(k, 1)
+    bud = 4000 + 400 * int(rows_req)
     if path.startswith("dom-"):
         how = "random" if "random" in path else "grid"
-        with ctx.lib(path, feature=pc):
+        with ctx.lib(path, feature=pc, budget_calls=bud):
             if d is None:
                 P, pen = geo.lib_sample(D, how, n, prows)
             else:
@@ -245,7 +250,7 @@ def run_scenario(spec, ctx, D=None):
         return out
     reps = 2 if path.startswith("static") else 1
     for it in range(reps):
-        with ctx.lib(path, feature=pc):
+        with ctx.lib(path, feature=pc, budget_calls=bud):
             try:
                 P = smp.sample_points(params)
             except RuntimeError as e:
